@@ -287,7 +287,7 @@ def r4_empty_agreement(ctx):
 
 RULES = [
     Rule('C08.R1', 'XML vocabulary agreement writer<->reader; every element id designates its own position', r1_vocabulary, floor=11000),
-    Rule('C08.R2', 'content/attribute escaping: & first, <, quote char; every value passes its escape', r2_escaping, floor=12),
-    Rule('C08.R3', 'segment/composite push-pop balance (post-dominance)', r3_balance, floor=6),
-    Rule('C08.R4', 'same emptiness predicate on both sides; every <seg> converted in order', r4_empty_agreement, floor=5),
+    Rule('C08.R2', 'content/attribute escaping: & first, <, quote char; every value passes its escape', r2_escaping, floor=9),
+    Rule('C08.R3', 'segment/composite push-pop balance (post-dominance)', r3_balance, floor=4),
+    Rule('C08.R4', 'same emptiness predicate on both sides; every <seg> converted in order', r4_empty_agreement, floor=3),
 ]
